@@ -30,9 +30,10 @@ type EditSpec struct {
 }
 
 type HOp struct {
-	Kind   string    `json:"kind"` // search | oneshot | parse | edit | mapsalt
-	Obj    int       `json:"obj"`  // compiled object / parser index
-	Expr   int       `json:"expr"` // oneshot, parse: index into expressions
+	Jump   int64     `json:"clock_jump_ns,omitempty"` // kind "clock": the simulated clock jumps forward
+	Kind   string    `json:"kind"`                    // search | oneshot | parse | edit | mapsalt | clock
+	Obj    int       `json:"obj"`                     // compiled object / parser index
+	Expr   int       `json:"expr"`                    // oneshot, parse: index into expressions
 	Doc    int       `json:"doc"`
 	Edit   *EditSpec `json:"edit,omitempty"`
 	Salt   uint64    `json:"salt,omitempty"`
@@ -207,6 +208,7 @@ type histStats struct {
 	steps                                                                                                       uint64
 	dirtyBufCandidates                                                                                          int
 	unorderedCompares                                                                                           int
+	clockJumps                                                                                                  int
 }
 
 // unordered returns a copy of v in which every array is sorted by its canonical JSON
@@ -258,6 +260,8 @@ var hstats histStats
 func runHistory(h *History) *RunReport {
 	rep := &RunReport{}
 	zzverifrt.Hook = simrt.Yield
+	zzverifrt.RandSeed(int64(h.MapSalt))
+	simrt.ClockReset()
 	simrt.RefMode(opStepCap)
 	defer simrt.RefMode(0)
 
@@ -358,6 +362,10 @@ func runHistory(h *History) *RunReport {
 		op := &h.Ops[i]
 		hstats.ops++
 		switch op.Kind {
+		case "clock":
+			simrt.ClockJump(op.Jump)
+			hstats.clockJumps++
+			continue
 		case "mapsalt":
 			salt, pol = op.Salt, op.Policy
 			zzverifrt.MapOrder = mapOrderFn(salt, pol)
@@ -507,6 +515,8 @@ func opString(h *History, op *HOp) string {
 		return fmt.Sprintf("caller-edit(doc%d, %s)", op.Doc, op.Edit.Action)
 	case "mapsalt":
 		return "map-order-change"
+	case "clock":
+		return fmt.Sprintf("clock-jump(+%v)", time.Duration(op.Jump))
 	}
 	return op.Kind
 }
@@ -709,7 +719,11 @@ func genHistory(master uint64, idx int) *History {
 				h.Ops = append(h.Ops, HOp{Kind: "edit", Doc: r.Intn(len(h.Docs)), Edit: ed})
 			}
 		default:
-			h.Ops = append(h.Ops, HOp{Kind: "mapsalt", Salt: r.Next(), Policy: r.Intn(3)})
+			if r.Chance(1, 2) {
+				h.Ops = append(h.Ops, HOp{Kind: "clock", Jump: clockJumps[r.Intn(len(clockJumps))]})
+			} else {
+				h.Ops = append(h.Ops, HOp{Kind: "mapsalt", Salt: r.Next(), Policy: r.Intn(3)})
+			}
 		}
 	}
 	return h
@@ -1008,6 +1022,7 @@ func histWorker(tier string, master uint64, from, to int, maxWall time.Duration,
 	st.Faults["panicking_operations"] = uint64(hstats.panics)
 	st.Faults["caller_edits_of_shared_document"] = uint64(hstats.edits)
 	st.Faults["map_order_changes"] = uint64(hstats.saltChanges)
+	st.Faults["clock_jumps_forward"] = uint64(hstats.clockJumps)
 	st.Probes["object_reused_right_after_failed_operation"] = uint64(hstats.reuseAfterFail)
 	st.Probes["parser_reused_after_unterminated_raw_string_with_escaped_quote"] = uint64(hstats.dirtyBufCandidates)
 	st.Probes["order_free_expression_checked_across_two_map_orders"] = uint64(hstats.crossSalt)
